@@ -103,6 +103,7 @@ func (r *R) State(h uint64) {
 
 // Hist folds harness-visible events into the run's history hash.
 func (r *R) Hist(parts ...any) {
+	sim.NoteProgress()
 	for _, p := range parts {
 		var x uint64
 		switch v := p.(type) {
@@ -179,7 +180,7 @@ func RunOne(w *World, tape *sim.Tape, focus string, tier string, trace bool) (re
 		res.Steps = r.Ops
 		res.Verdict = "done"
 	} else {
-		cfg := sim.Config{Trace: trace, MaxSteps: w.MaxSteps}
+		cfg := sim.Config{Trace: trace, MaxSteps: w.MaxSteps + 3000, SpinLimit: 2500}
 		cfg.Strategy = tape.Choose(sim.NumStrategies, "strategy")
 		cfg.PostYield = tape.Choose(3, "postyield") == 2
 		if cfg.Strategy == sim.StratPCT {
@@ -222,6 +223,9 @@ func RunOne(w *World, tape *sim.Tape, focus string, tier string, trace bool) (re
 			}
 			if len(out.Panics) > 0 {
 				r.Violate(focus, "panic/"+panicSig(out.Panics[0]), "%s", out.Panics[0])
+			}
+			if out.Verdict == "livelock" && !r.Failed() {
+				r.Violate(focus, "livelock/"+out.LivelockSite, "a call spins without ever blocking or finishing: %s has been the only runnable task for more than %d scheduling points without any observable progress, no timer is pending and every other task is blocked or finished, so nothing can change what it is waiting for", out.Livelock, cfg.SpinLimit)
 			}
 			if out.Verdict == "stuck" {
 				if r.OnStuck != nil {
